@@ -3,5 +3,5 @@
 cd "$(dirname "$0")/.."
 for p in $(python3 -c "import json;print(' '.join(c['property_id'] for c in json.load(open('MANIFEST.json'))['checks']))"); do
   out=$(bin/verif check $p --tier ${1:-quick} 2>&1); rc=$?
-  echo "$out" | grep -E "^(C[0-9]+:|VIOLATION|UNDECIDED|CHECKER)" | cut -c1-180 | sed "s/^/[rc=$rc] /"
+  echo "$out" | grep -E "^(C[0-9]+:|VIOLATION|UNDECIDED|CHECKER)" | cut -c1-180 | sed "s/$/ [rc=$rc]/"
 done
